@@ -42,7 +42,27 @@ def _blocking(kind, n, p_size, bad, nd):
         p = w.make_pool(p_size)
     w.pickle_results = True
     seq = _seq(kind, n, bad)
-    h = p.imap(Fn(bad), list(range(n))) if kind == 'imap' else p.imap_unordered(Fn(bad), list(range(n)))
+    # (the feeder is handed the bound method at submission: the deferral has to be in place before that)
+    late_flag = nd.flag()
+    pending = []
+    real_fn = bp.IMapIterator._set_length
+
+    def maybe_deferred(self, length):
+        if late_flag and not pending_done:
+            pending.append((self, length))
+        else:
+            real_fn(self, length)
+    pending_done = []
+    bp.IMapIterator._set_length = maybe_deferred
+    try:
+        h = p.imap(Fn(bad), list(range(n))) if kind == 'imap' else p.imap_unordered(Fn(bad), list(range(n)))
+    finally:
+        bp.IMapIterator._set_length = real_fn
+
+    # the task-feeder thread announces the length after it has sent the last task - how long after is up to the scheduler (and to the
+    # input: a lazily produced input is exhausted only some time after its last item).  The feeder's call is held back and delivered
+    # at a solver-chosen moment: at once, or only when nothing else can move (every result consumed, the consumer blocked in next())
+    late = late_flag
 
     def step():
         # one worker takes or finishes a part (symbolic choice of which), then the result handler catches up:
@@ -52,6 +72,11 @@ def _blocking(kind, n, p_size, bad, nd):
             return True
         movable = [x for x in p._pool if x.state == 'busy' or (x.state == 'idle' and p._inqueue.q)]
         if not movable:
+            if pending:
+                it, length = pending.pop()
+                pending_done.append(1)
+                real_fn(it, length)                    # the feeder gets to announce the length at last
+                return True
             return False
         x = movable[nd.draw(0, 1) % len(movable)] if len(movable) > 1 else movable[0]
         if x.state == 'idle':
@@ -71,6 +96,8 @@ def _blocking(kind, n, p_size, bad, nd):
             return fail('C02:iterator:TimeoutError-although-no-timeout-was-requested:' + kind)
         except Prune:
             raise
+        except IndexError:
+            return fail('C02:iterator:next-raises-IndexError-instead-of-ending:' + kind + (':length-announced-after-the-last-result-was-consumed' if late else ''))
         except Exception as exc:
             einfo = exc.args[0] if exc.args else None
             if W.einfo_type(einfo) is not ValueError:
